@@ -213,6 +213,12 @@ class Ctx:
         """Evaluate `check_fn : case_type -> bool` on every case inside Coq (vm_compute); returns the
         indices of the cases on which it is false (or all indices of a chunk that failed to compile)."""
         files = []
+        # case files of an earlier (larger) run with the same name are stale: remove them, disk space is limited
+        for old_file in self.scratch.glob(f'cases_{name}_*.v'):
+            try:
+                old_file.unlink()
+            except OSError:
+                pass
         for k in range(0, len(cases), chunk):
             body = ';\n  '.join(cases[k:k + chunk])
             src = (f'{preamble}\nDefinition cases : list ({case_type}) := [\n  {body}\n].\n'
@@ -225,6 +231,13 @@ class Ctx:
         def one(item):
             k, p, n = item
             rc, out = sh(['coqc', '-Q', str(THEORIES), 'AB', p.name], cwd=self.scratch, timeout=timeout)
+            # the compiled outputs are of no further use (the answer is in `out`); the .v stays for replay / inspection
+            for junk in (p.with_suffix('.vo'), p.with_suffix('.vok'), p.with_suffix('.vos'), p.with_suffix('.glob'),
+                         p.with_name('.' + p.stem + '.aux')):
+                try:
+                    junk.unlink()
+                except OSError:
+                    pass
             if rc != 0:
                 return k, n, None, out
             m = re.search(r'=\s*(.*?)\s*:\s*list nat', out, re.S)
